@@ -294,6 +294,103 @@ contract('C15.runtime.compensated', [TS + ':SensitivityAnalysis.run', TM + ':Mon
                                      'optiland/tolerancing/compensator.py:CompensatorOptimizer.run'], ['C15'], custom=_compensated)(lambda c: None)
 
 
+def _undefined(ct, tier, seed):
+    """bounded: runs in which some trials cannot be traced (the perturbed front radius is smaller than the beam, the operands are
+    undefined): there is one row per trial, in trial order, carrying the perturbation value of that trial; the row of an untraceable
+    trial reports the operands as undefined (NaN) exactly where a fresh lens with that perturbation has them undefined; the rows of
+    the other trials equal the fresh-lens values; the lens is back at nominal afterwards"""
+    import time
+    import warnings
+    import numpy as np
+    from optiland.optic import Optic
+    from optiland.materials import IdealMaterial
+    from optiland.tolerancing.core import Tolerancing
+    from optiland.tolerancing.perturbation import RangeSampler, ScalarSampler
+    from optiland.tolerancing.sensitivity_analysis import SensitivityAnalysis
+    from optiland.tolerancing.monte_carlo import MonteCarlo
+    warnings.simplefilter('ignore')
+    np.seterr(all='ignore')
+    t0 = time.time()
+    clauses, fails, cases = {}, [], 0
+
+    def note(cid, ok, detail, inputs):
+        c_ = clauses.setdefault(cid, {'paths': 0, 'proved': 0, 'backends': {}, 'failed': [], 'seconds': 0.0, 'bounded': True})
+        c_['paths'] += 1
+        if ok:
+            c_['proved'] += 1
+            c_['backends']['runtime'] = c_['backends'].get('runtime', 0) + 1
+        else:
+            fails.append({'clause': cid, 'draws': inputs, 'note': detail})
+
+    def build():
+        L = Optic()
+        L.add_surface(index=0, thickness=np.inf)
+        L.add_surface(index=1, radius=20.0, thickness=6.0, material=IdealMaterial(1.7), is_stop=True)
+        L.add_surface(index=2, radius=-250.0, thickness=24.0)
+        L.add_surface(index=3)
+        L.set_aperture('EPD', 8.0)
+        L.set_field_type('angle')
+        L.add_field(y=0.0)
+        L.add_field(y=3.0)
+        L.add_wavelength(0.55, is_primary=True)
+        return L
+
+    def tol_for(L):
+        T = Tolerancing(L)
+        for Hy in (0.0, 1.0):
+            T.add_operand('rms_spot_size', {'optic': L, 'surface_number': -1, 'Hx': 0.0, 'Hy': Hy, 'num_rays': 3, 'wavelength': 0.55,
+                                            'distribution': 'hexapolar'})
+        return T
+
+    def fresh(value):
+        L2 = build()
+        T2 = tol_for(L2)
+        T2.add_perturbation('radius', ScalarSampler(float(value)), surface_number=1)
+        T2.perturbations[0].apply()
+        return [float(v_) for v_ in T2.evaluate()]
+    for (lo, hi, n) in ((3.0, 36.0, 4), (30.0, 3.0, 3)) + (() if tier == 'quick' else ((2.0, 3.5, 3), (3.0, 40.0, 6))):
+        want_values = [float(v_) for v_ in np.linspace(lo, hi, n)]
+        for kind in ('monte_carlo', 'sensitivity'):
+            L = build()
+            T = tol_for(L)
+            T.add_perturbation('radius', RangeSampler(lo, hi, n), surface_number=1)
+            A = MonteCarlo(T) if kind == 'monte_carlo' else SensitivityAnalysis(T)
+            inputs = {'analysis': kind, 'radius_values': want_values}
+            try:
+                A.run(n) if kind == 'monte_carlo' else A.run()
+                df = A.get_results()
+            except Exception as ex:
+                note('C15.runtime.run_with_untraceable_trials_completes', False, '%s: %s' % (type(ex).__name__, ex), inputs)
+                continue
+            note('C15.runtime.run_with_untraceable_trials_completes', True, '', inputs)
+            names = A.operand_names
+            pcol = 'perturbation_value' if kind == 'sensitivity' else [c_ for c_ in df.columns if 'adius' in str(c_)][0]
+            cases += 1
+            ok_rows = len(df) == n and bool(np.allclose([float(v_) for v_ in df[pcol]], want_values, rtol=1e-12, atol=0))
+            note('C15.runtime.one_row_per_trial_in_trial_order_with_its_perturbation_value', ok_rows,
+                 '%d rows for %d trials; recorded %s' % (len(df), n, [float(v_) for v_ in df[pcol]]), inputs)
+            if not ok_rows:
+                continue
+            for i in range(n):
+                got = [float(df.iloc[i][n_]) for n_ in names]
+                want = fresh(want_values[i])
+                note('C15.runtime.undefined_operands_are_recorded_as_undefined_and_defined_ones_as_their_value',
+                     bool(np.allclose(got, want, rtol=1e-9, atol=1e-12, equal_nan=True)), 'trial %d (radius %s): %s vs fresh %s' % (i, want_values[i], got, want),
+                     dict(inputs, trial=i))
+            back = build()
+            note('C15.runtime.nominal_restored_after_a_run_with_untraceable_trials',
+                 bool(np.allclose(L.surface_group.radii, back.surface_group.radii, rtol=0, atol=1e-12, equal_nan=True))
+                 and bool(np.allclose(L.surface_group.positions, back.surface_group.positions, rtol=0, atol=1e-12)), '', inputs)
+    return {'contract': ct.name, 'functions': ct.functions, 'props': ct.props,
+            'symbolic': {'clauses': clauses, 'paths': 0, 'errors': [], 'solver_s': 0.0, 'samples': [], 'wd_assumed': [], 'assumed': []},
+            'numeric': {'accepted': cases, 'rejected': 0, 'failures': fails[:10], 'concolic_agree': 0, 'encoder_mismatches': [],
+                        'samples': [{'lens': 'singlet EPD 8, front radius perturbed down to 3'}]}, 'wall_s': time.time() - t0}
+
+
+contract('C15.runtime.undefined', [TS + ':SensitivityAnalysis.run', TM + ':MonteCarlo.run', TC + ':Tolerancing.evaluate'], ['C15'],
+         custom=_undefined)(lambda c: None)
+
+
 def _seeded(ct, tier, seed):
     """bounded: a sampler built with a seed -- any integer, 0 included -- makes the sample sequence (and a Monte-Carlo table built on
     it) reproducible whatever the state of NumPy's global generator was before"""
